@@ -609,7 +609,6 @@ fn build_segment_from_runs(seg_id: SegmentId, runs: &Arc<Vec<Arc<L0Run>>>) -> Cs
 
     for run in runs.iter() {
         blocked_nodes.extend(run.iter_tombstoned_nodes());
-        blocked_edges.extend(run.iter_tombstoned_edges());
 
         for e in run.iter_edges() {
             if blocked_nodes.contains(&e.src) || blocked_nodes.contains(&e.dst) {
@@ -620,6 +619,10 @@ fn build_segment_from_runs(seg_id: SegmentId, runs: &Arc<Vec<Arc<L0Run>>>) -> Cs
             }
             edges.push(e);
         }
+
+        // A run's own edge tombstones only hide older data: an edge that is still in the
+        // run was (re-)created after the tombstone (same rule as the read path).
+        blocked_edges.extend(run.iter_tombstoned_edges());
     }
 
     edges.sort();
